@@ -133,6 +133,8 @@ func (c *Ctx) role(name string) *ssa.Function {
 		return c.calleeBySig(c.role("sam.parseLine"), "([]string,[]*int)(error)", 0)
 	case "sam.parseTags":
 		return c.calleeBySig(c.role("sam.parseLine"), "([]string)(map[string]any,error)", 0)
+	case "sam.splitTag":
+		return c.calleeBySig(c.role("sam.parseTags"), "(string)([3]string,error)", 0)
 	case "sam.tagsToText":
 		return c.calleeBySig(c.fn("formats/sam", "(*SAM).Write"), "(map[string]interface{})([]string)", 0)
 	case "sam.tagToText":
